@@ -257,7 +257,7 @@ func genQuery(r *rng.R, s *spec.Spec) selQuery {
 // RunC12: selection is the pattern matches plus their dependency closure, nothing else.
 func RunC12(tier string) int {
 	run := report.New("C12", tier, "exploration",
-		"seeded multi-package workspaces (prefix-sibling packages p/p2, nested packages, tags, test targets, platform selectors, aliases and alias chains) x invocations of grog build / grog test with pattern sets (absolute, relative from a sub-package cwd, recursive, :all, name-restricted recursive, shorthand, alias labels, several patterns), --tag, --exclude-tag, --platform, --all-platforms, each on an empty cache so that every selected target executes; "+
+		"seeded multi-package workspaces (prefix-sibling packages p/p2, nested packages, tags, test targets, platform selectors, aliases and alias chains) x invocations of grog build / grog test with pattern sets (absolute, relative from a sub-package cwd, recursive, :all, name-restricted recursive, shorthand, alias labels, several patterns), --tag, --exclude-tag, --platform, --all-platforms, each on an empty cache so that every selected target executes; 60 directories whose package is defined by two to four files at once built with //... over and over with 3..32 workers (every defined target runs exactly once); "+
 			"oracle: executed set (command trace) == reference selection (pattern matches passing the filters + dependency closure through aliases); targets reached only through a pattern-matched alias are may-run; a platform-incompatible dependency must be an error with nothing executed; 'Selected N targets' must equal the executed count; "+
 			"non-trivial = selection that is a proper non-empty subset of all targets; distinct = query shape + selection size")
 	st, err := e1.Prepare(run, false)
@@ -400,6 +400,9 @@ func RunC12(tier string) int {
 		run.Count("targets_selected_and_executed", len(executed))
 		run.Sample(map[string]any{"query": q.args(), "cwd": q.Cwd, "executed": exl, "targets": len(s.Targets)})
 	})
+	if report.Part("storm") {
+		multiFilePackagesPart(run, st, tier, "build")
+	}
 	run.Assume("targets reached only through an alias that itself matches a pattern are may-run (the statement speaks about matching targets)")
 	return run.Finish()
 }
